@@ -7,6 +7,7 @@ CONSTANTS
   Offs <- OffsGen2
   Rtds = {1, 2, 3, 4, 5}
   DistinctOnly = TRUE
+  Clk0s = {0, 1}
   MaxEv = 5
   FilterAverage = 20
 INVARIANTS Emit
